@@ -287,6 +287,10 @@ var pluginsDef = []plug{
 		{"/acl/rule[dir=*][id=*]/id", configapi.ValueType_STRING, true, "id"},
 		{"/acl/rule[dir=*][id=*]/dir", configapi.ValueType_STRING, true, "dir"},
 		{"/acl/rule[dir=*][id=*]/action", configapi.ValueType_STRING, false, "action"},
+		// a list nested in a list, both keyed by a leaf of the same name: a key leaf belongs to its OWN entry
+		{"/cont/outer[id=*]/id", configapi.ValueType_STRING, true, "id"},
+		{"/cont/outer[id=*]/inner[id=*]/id", configapi.ValueType_STRING, true, "id"},
+		{"/cont/outer[id=*]/inner[id=*]/val", configapi.ValueType_STRING, false, "val"},
 		{"/q/w[z=*][a=*]/v", configapi.ValueType_STRING, false, "v"}, // keys not in StrPath's sorted order: never matched exactly
 	}},
 	{"devicesim", "2.0.0", []rwp{
@@ -386,12 +390,15 @@ var leafTmpls = []tmpl{
 	{[]string{"ifs", "if[name]", "units", "unit[idx]", "vlan"}, 'u', ""},
 	{[]string{"acl", "rule[dir,id]", "id"}, 's', "id"}, {[]string{"acl", "rule[dir,id]", "dir"}, 's', "dir"},
 	{[]string{"acl", "rule[dir,id]", "action"}, 's', ""},
+	{[]string{"cont", "outer[id]", "id"}, 's', "id"}, {[]string{"cont", "outer[id]", "inner[id]", "id"}, 's', "id"},
+	{[]string{"cont", "outer[id]", "inner[id]", "id"}, 's', "id"}, {[]string{"cont", "outer[id]", "inner[id]", "val"}, 's', ""},
 }
 
 var contTmpls = []tmpl{
 	{[]string{"sys"}, 0, ""}, {[]string{"sys", "sub"}, 0, ""}, {[]string{"ifs"}, 0, ""}, {[]string{"ifs", "if[name]"}, 0, ""},
 	{[]string{"acl"}, 0, ""}, {[]string{"acl", "rule[dir,id]"}, 0, ""}, {[]string{"ifs", "if[name]", "units"}, 0, ""},
 	{[]string{"ifs", "if[name]", "units", "unit[idx]"}, 0, ""}, {[]string{}, 0, ""},
+	{[]string{"cont", "outer[id]"}, 0, ""}, {[]string{"cont", "outer[id]", "inner[id]"}, 0, ""},
 }
 
 var badTmpls = []tmpl{
@@ -562,14 +569,22 @@ func genRawOp(r *rand.Rand, o genOpts, del bool) rawOp {
 		}
 		op.v = mkVal(kind, r)
 		if t.key != "" && (r.Intn(4) != 0 || (o.badPaths == 0 && r.Intn(3) != 0)) {
-			// a key leaf: mostly the value of its own list entry's key
+			// a key leaf: mostly the value of its own list entry's key; when an enclosing list has a key of the
+			// same name, sometimes THAT value (which contradicts the leaf's own entry unless both are equal)
+			same := []string{}
 			for _, e := range op.elems {
 				for _, kv := range e.keys {
 					if kv[0] == t.key {
-						s := kv[1]
-						op.v = val{kind: 's', s: s, gv: &gnmi.TypedValue{Value: &gnmi.TypedValue_StringVal{StringVal: s}}}
+						same = append(same, kv[1])
 					}
 				}
+			}
+			if len(same) > 0 {
+				s := same[len(same)-1]
+				if len(same) > 1 && r.Intn(3) == 0 {
+					s = same[0]
+				}
+				op.v = val{kind: 's', s: s, gv: &gnmi.TypedValue{Value: &gnmi.TypedValue_StringVal{StringVal: s}}}
 			}
 		}
 		switch {
